@@ -31,7 +31,7 @@ class Rodgers2000(TemperatureProfile):
 
         self._tp_corr_length = correlation_length
         self._covariance = covariance_matrix
-        self._T_layers = np.array(temperature_layers)
+        self._T_layers = np.array(temperature_layers, dtype=np.float64)
         self.generate_temperature_fitting_params()
 
     def gen_covariance(self):
